@@ -792,8 +792,12 @@ func (s *Server) streamLTXSnapshot(ctx context.Context, w http.ResponseWriter, d
 	if timeout == 0 {
 		timeout = s.store.Retention
 	}
-	ctx, cancel := context.WithTimeoutCause(ctx, timeout, fmt.Errorf("snapshot timeout exceeded (%s)", timeout))
-	defer cancel()
+	// With retention turned off (zero) files are never removed: no time limit.
+	if timeout > 0 {
+		var cancel context.CancelFunc
+		ctx, cancel = context.WithTimeoutCause(ctx, timeout, fmt.Errorf("snapshot timeout exceeded (%s)", timeout))
+		defer cancel()
+	}
 
 	// Write frame.
 	if err := litefs.WriteStreamFrame(w, &litefs.LTXStreamFrame{Name: db.Name()}); err != nil {
